@@ -11,6 +11,9 @@
 //	                               first-order table: Subscribe wiring, walks, gates, callbacks (dispatch.go)
 //	go2coq HandlersTable -repo <path>  Subscribe / Emit of the four event handlers (pkg/engine/event/handler) and
 //	                               logging.Log / InitLoggers as a first-order table (handlers.go)
+//	go2coq RunSkeleton -repo <path>    the run loop of pkg/simulation (run.go, action.go, death.go) as a first-order
+//	                               table: per function the ordered steps of its body - emits, checks, drains, guards,
+//	                               next states (runskel.go)
 //
 // It loads every package under ./pkg, ./internal and ./cmd of the repository with full type
 // information (golang.org/x/tools/go/packages; test files and files excluded by build
@@ -71,6 +74,8 @@ func main() {
 		fmt.Print(genDispatch(root))
 	case "Handlers", "HandlersTable":
 		fmt.Print(genHandlers(root))
+	case "RunSkeleton":
+		fmt.Print(genRunSkeleton(root))
 	default:
 		die("unknown generator %q", gen)
 	}
